@@ -22,6 +22,8 @@ type CmpOpts struct {
 	// LenientDouble: an optional non-pointer double that equals its declared
 	// default under == is compared as that default (-0.0 vs 0.0).
 	LenientDouble bool
+	// IgnoreHolders leaves unknown-field holders out of the comparison.
+	IgnoreHolders bool
 }
 
 // Canon serialises a value totally and canonically: nil and empty slices/maps
@@ -49,7 +51,7 @@ func canonStruct(b []byte, s *schema.Struct, v reflect.Value, o CmpOpts) []byte 
 			b = binary.BigEndian.AppendUint64(b, math.Float64bits(ev.Float()))
 		}
 	}
-	if s.HasUnknown {
+	if s.HasUnknown && !o.IgnoreHolders {
 		h := Holder(s, v)
 		b = binary.BigEndian.AppendUint32(b, uint32(len(h)))
 		b = append(b, h...)
